@@ -51,7 +51,8 @@ struct Block {
 }
 
 fn load_blocks() -> Vec<Block> {
-    let txt = std::fs::read_to_string("/repo/crates/rs1090/data/patterns.json").expect("patterns.json");
+    let repo = std::env::var("VERIF_REPO").unwrap_or_else(|_| "/repo".into());
+    let txt = std::fs::read_to_string(format!("{repo}/crates/rs1090/data/patterns.json")).expect("patterns.json");
     let v: serde_json::Value = serde_json::from_str(&txt).unwrap();
     let mut out = vec![];
     for r in v["registers"].as_array().unwrap() {
@@ -114,6 +115,14 @@ fn check_country(r: &mut Report, blocks: &[Block], h: u32, reg: &str, full: bool
                 if info.registration.as_deref() != Some(reg) {
                     r.violation("C14:aircraft_information:registration", format!("aircraft_information({hs}).registration = {:?}, tail() = {reg}", info.registration), json!({"hexid": h}));
                 }
+                // the country reported for the address must be that of an address block containing it (and present
+                // whenever such a block exists): the lookup side of the same table
+                let containing: Vec<&str> = blocks.iter().filter(|b| b.start <= h && h <= b.end).map(|b| b.country.as_str()).collect();
+                match &info.country {
+                    None if !containing.is_empty() => r.violation("C14:aircraft_information:country-missing", format!("aircraft_information({hs}) reports {reg} without a country, the address lies in the block of {}", containing[0]), json!({"hexid": h})),
+                    Some(c) if !containing.contains(&c.as_str()) => r.violation("C14:aircraft_information:country-of-no-containing-block", format!("aircraft_information({hs}) says {c}, blocks containing the address: {containing:?}"), json!({"hexid": h})),
+                    _ => r.class("aircraft_information:country-of-a-containing-block"),
+                }
                 if let (Some(c), Some(a7)) = (&info.country, annex7(reg)) {
                     if c != a7 {
                         r.violation("C14:aircraft_information:country", format!("aircraft_information({hs}) says {c} for {reg} ({a7}'s mark)"), json!({"hexid": h}));
@@ -160,7 +169,12 @@ pub fn run(a: &Args, r: &mut Report) {
                 if reg.is_empty() || !reg.chars().all(|c| c.is_ascii_uppercase() || c.is_ascii_digit() || c == '-') {
                     r.violation("C14:registration:charset", format!("tail({h:06x}) = {reg:?}"), json!({"hexid": h}));
                 }
-                check_country(r, &blocks, h, &reg, nreg % full_every == 0);
+                // the full lookup on a share of the addresses, and on every address next to a block boundary
+                let edge = blocks.iter().any(|b| h.abs_diff(b.start) <= 2 || h.abs_diff(b.end) <= 2);
+                if edge {
+                    r.class("aircraft_information:at-a-block-boundary");
+                }
+                check_country(r, &blocks, h, &reg, edge || nreg % full_every == 0);
                 if nreg % 200_000 == 1 {
                     r.sample(json!({"hexid": format!("{h:06x}"), "registration": reg, "block_country": block_of(&blocks, h).map(|b| b.country.clone())}));
                 }
